@@ -358,7 +358,11 @@ def finish(ctx: Ctx, level='proof'):
         'wall_s': round(time.time() - ctx.t0, 2),
         'violations': len(ctx.violations) + (1 if (ctx.broken and not ctx.violations) else 0),
     }
-    json.dump(ev, open(os.path.join(VERIF, 'evidence', ctx.pid + '.json'), 'w'), indent=1, default=str)
+    # VERIF_EVIDENCE_DIR redirects the evidence (used when the checks are run against a deliberately changed tree,
+    # so that the committed evidence always describes the unchanged tree)
+    evdir = os.environ.get('VERIF_EVIDENCE_DIR') or os.path.join(VERIF, 'evidence')
+    os.makedirs(evdir, exist_ok=True)
+    json.dump(ev, open(os.path.join(evdir, ctx.pid + '.json'), 'w'), indent=1, default=str)
     for ln in lines:
         print(ln)
     print('%s %s seed=%d: obligations %d/%d, engines %s, search %d evals (%d distinct), %.1fs -> %s'
